@@ -3,3 +3,4 @@
 use super::*;
 
 pub(crate) mod common;
+mod c09;
